@@ -24,3 +24,5 @@
 #define ZROW(i,q) FA(q, NZ, (INR(q) && RI(q) == (i)) ==> AV(q) == 0)
 #define ZCOL(j,q) FA(q, NZ, INCOL(q,j) ==> AV(q) == 0)
 #define IN_SCALE(x) (SML <= (x) && (x) <= BIG)
+/* the largest stored magnitude, named through the ghost argmax g_m (0 when nothing is stored) */
+#define AMAXV (CP(0) < CP(NC) ? ABSA(g_m) : 0)
